@@ -299,6 +299,10 @@ class Ctx:
         """compile harness/<sources> (+ repo_sources, paths relative to the repo)
         against the repo's working tree; cached by hash of all dependencies."""
         inc = self.shark_h()
+        if REPO != "/repo" and sha(REPO)[:8] not in name and sha(os.path.abspath(REPO))[:8] not in name:
+            # one cached binary / object set per checked tree: a scratch worktree (VERIF_REPO) neither evicts
+            # the /repo build nor races with a concurrent check of another tree
+            name = f"{name}-{sha(os.path.abspath(REPO))[:8]}"
         exe = os.path.join(CACHE, "bin", name)
         os.makedirs(os.path.join(CACHE, "bin"), exist_ok=True)
         os.makedirs(os.path.join(CACHE, "obj"), exist_ok=True)
